@@ -311,6 +311,16 @@ pub fn post_op<'f>(s: &mut Sess, fs: &'f Fs, hs: &mut [Option<H<'f>>], op: &Op, 
     for (k, name) in w.renames.drain(..) {
         s.model.nodes[k].name = name;
     }
+    // the volume label entry is nobody's to touch
+    if let Some(p) = &s.prev {
+        let before = fatck::root_label(&p.root);
+        let after = fatck::root_label(&dec.root);
+        if before != after && !baseline && (s.cfg.on("C01") || s.cfg.on("C03")) {
+            let d = format!("after {}: the volume label entry in the root directory changed from {:?} to {:?}", op.show(), before.map(|l| String::from_utf8_lossy(&l).to_string()), after.map(|l| String::from_utf8_lossy(&l).to_string()));
+            s.violate(tree_prop, "label-entry-changed", op, "", d);
+            return;
+        }
+    }
     // ---- C16: aliases of new entries
     for (k, sfn) in w.new_aliases.drain(..) {
         if s.cfg.on("C16") && s.model.nodes[k].born == s.op_id || matches!(op, Op::Rename { .. }) {
